@@ -319,7 +319,8 @@ func ext۰runtime۰GOROOT(fr *frame, args []value) value {
 }
 
 func ext۰runtime۰GC(fr *frame, args []value) value {
-	runtime.GC()
+	// the target asking for a collection is not the subject; a real collection of the engine's heap
+	// (the whole SSA program) costs ~100 ms
 	return nil
 }
 
